@@ -82,6 +82,12 @@ func customLeaves(fallible bool) []customLeaf {
 			Custom:      map[string]string{"PFXA→PFXS": "PFXExt", "int→string": "PFXExt"},
 		},
 		{
+			Name:      "extend_same_basic",
+			Shape:     shape{Src: "string", Tgt: "string", Name: "extstr", Decls: []string{fmt.Sprintf("func PFXExt(a string) %s { %s }", errRes("string"), ret(`""`))}},
+			ConvLines: []string{"extend PFXExt"},
+			Custom:    map[string]string{"string→string": "PFXExt"},
+		},
+		{
 			Name:      "extend_struct",
 			Shape:     shape{Src: "PFXIn", Tgt: "PFXOut", Name: "extstruct", Decls: []string{"type PFXIn struct{ V int }\ntype PFXOut struct{ W string }\n" + fmt.Sprintf("func PFXExt(a PFXIn) %s { %s }", errRes("PFXOut"), ret("PFXOut{}"))}},
 			ConvLines: []string{"extend PFXExt"},
@@ -101,7 +107,13 @@ func customLeaves(fallible bool) []customLeaf {
 }
 
 func customConv(family string, cl customLeaf, s shape, format string, n int, wrap string) *Conv {
-	spec := &Spec{Custom: cl.Custom}
+	spec := &Spec{Custom: map[string]string{}}
+	for a, b := range cl.Custom {
+		spec.Custom[a] = b
+	}
+	for a, b := range s.Custom {
+		spec.Custom[a] = b
+	}
 	params := "source " + s.Src
 	if cl.CtxParam != "" {
 		if n%2 == 0 {
@@ -124,7 +136,7 @@ func customConv(family string, cl customLeaf, s shape, format string, n int, wra
 		Params:    params,
 		Results:   res,
 		Decls:     strings.Join(s.Decls, "\n"),
-		ConvLines: append([]string{}, cl.ConvLines...),
+		ConvLines: append(append([]string{}, cl.ConvLines...), s.ConvLines...),
 		MethodLines: append([]string{}, cl.MethodLines...),
 		Spec:      spec,
 		Aux:       cl.Aux,
@@ -174,6 +186,10 @@ func nestings(g *shapeGen, leaf shape, thorough bool) []shape {
 		}
 		out = append(out, s)
 	}
+	out = append(out, ctorMapExtKey.F(g, leaf))
+	out = append(out, ctorMapExtKey.F(g, ctorByName("struct").F(g, leaf)))
+	out = append(out, ctorByName("struct").F(g, ctorMapExtKey.F(g, leaf)))
+	out = append(out, ctorByName("slice").F(g, ctorMapExtKey.F(g, ctorByName("slice").F(g, leaf))))
 	deep3 := [][]string{
 		{"ptr", "map", "slice", "struct"}, {"struct", "slice", "struct"}, {"map", "struct", "slice"}, {"slice", "struct", "map"},
 		{"struct", "map", "struct"}, {"slice", "ptr", "struct"},
@@ -317,6 +333,28 @@ func fieldFuncConvs(family string, fallible bool) []*Conv {
 			"Age":   {Ignore: true},
 			"Last2": {Path: []string{"First"}, Fn: "PFXLast"},
 		}))
+	// map ... | FUNC whose extra parameter is a context only through a *method-level* arg:context:regex
+	for _, f := range []string{"struct", "function", "variable"} {
+		cv := mk("methodctx", f, []string{"arg:context:regex ^ctx", "map ID Full | PFXLookup", "ignore Age Last2"},
+			map[string]*FieldSpec{
+				"Full":  {Path: []string{"ID"}, Fn: "PFXLookup"},
+				"Age":   {Ignore: true},
+				"Last2": {Ignore: true},
+			})
+		cv.Decls += fmt.Sprintf("type PFXLoc struct{ Lang string }\nfunc PFXLookup(id int, ctxL PFXLoc) %s { %s }\n", errRes("string"), ret(`""`))
+		cv.Params = "source PFXIn, ctxL PFXLoc"
+		out = append(out, cv)
+		// the function takes only the context
+		cv2 := mk("methodctxonly", f, []string{"arg:context:regex ^ctx", "map Full | PFXLocale", "ignore Age Last2"},
+			map[string]*FieldSpec{
+				"Full":  {Fn: "PFXLocale", FnNoSource: true},
+				"Age":   {Ignore: true},
+				"Last2": {Ignore: true},
+			})
+		cv2.Decls += fmt.Sprintf("type PFXLoc struct{ Lang string }\nfunc PFXLocale(ctxL PFXLoc) %s { %s }\n", errRes("string"), ret(`""`))
+		cv2.Params = "source PFXIn, ctxL PFXLoc"
+		out = append(out, cv2)
+	}
 	return out
 }
 
@@ -354,6 +392,73 @@ func declaredMethodConvs() []*Conv {
 				}}}},
 			})
 		}
+	}
+	return out
+}
+
+// FamilySibling: two methods of one converter with different values of an inheritable setting share a
+// nested struct pair (one generated sub-method). A setting of one method never changes the behaviour of
+// its sibling (C12); generated sub-methods take the converter-level value (documented).
+func FamilySibling(thorough bool) []*Conv {
+	var out []*Conv
+	decl := "type PFXA int\ntype PFXB int\nfunc PFXExt(a PFXA) (PFXB, error) { return 0, nil }\n" +
+		"type PFXIn struct{ V PFXA }\ntype PFXInT struct{ V PFXB }\n" +
+		"type PFXO1 struct {\n\tInner PFXIn\n\tX int\n}\ntype PFXO1T struct {\n\tInner PFXInT\n\tX int\n}\n" +
+		"type PFXO2 struct {\n\tInner PFXIn\n\tL []PFXIn\n\tY int\n}\ntype PFXO2T struct {\n\tInner PFXInT\n\tL []PFXInT\n\tY int\n}\n"
+	type variant struct {
+		name      string
+		convLines []string
+		sibLines  []string
+		testLines []string
+		mode      string
+	}
+	variants := []variant{
+		{"sibling_wraps", nil, []string{"wrapErrors"}, nil, ""},
+		{"sibling_disables", []string{"wrapErrors"}, []string{"wrapErrors no"}, nil, "wrap"},
+		{"sibling_wraps_cli", nil, []string{"wrapErrors yes"}, []string{"wrapErrors no"}, ""},
+		{"both_inherit", []string{"wrapErrors"}, nil, nil, "wrap"},
+		{"test_overrides", []string{"wrapErrors"}, nil, []string{"wrapErrors no"}, "mixed"},
+	}
+	for _, v := range variants {
+		for _, f := range []string{"struct", "function", "variable"} {
+			if v.mode == "mixed" {
+				continue // sub-methods keep the converter-level value: covered by both_inherit
+			}
+			var sb strings.Builder
+			for _, l := range v.sibLines {
+				sb.WriteString("\t// goverter:" + l + "\n")
+			}
+			if f == "variable" {
+				sb.WriteString("\tAPFXFirst func(source PFXO1) (PFXO1T, error)\n")
+			} else {
+				sb.WriteString("\tAPFXFirst(source PFXO1) (PFXO1T, error)\n")
+			}
+			out = append(out, &Conv{
+				ID:           "sibling/" + v.name + "/" + f,
+				Family:       "sibling",
+				Format:       f,
+				Params:       "source PFXO2",
+				Results:      "(PFXO2T, error)",
+				Decls:        decl,
+				ConvLines:    append([]string{"extend PFXExt"}, v.convLines...),
+				MethodLines:  v.testLines,
+				ExtraMethods: sb.String(),
+				Spec:         &Spec{Custom: map[string]string{"PFXA→PFXB": "PFXExt"}, WrapMode: v.mode},
+				Solo:         true,
+			})
+		}
+	}
+	// a sibling's ignoreMissing must not make the shared sub-method tolerate a missing field
+	declMiss := "type PFXIn struct{ V int }\ntype PFXInT struct {\n\tV int\n\tMissing int\n}\n" +
+		"type PFXO1 struct{ Inner PFXIn }\ntype PFXO1T struct{ Inner PFXInT }\n" +
+		"type PFXO2 struct{ Inner PFXIn }\ntype PFXO2T struct{ Inner PFXInT }\n"
+	for _, setting := range []string{"ignoreMissing"} {
+		out = append(out, &Conv{
+			ID: "sibling/fail_" + setting + "/struct", Family: "sibling", Format: "struct",
+			Params: "source PFXO2", Results: "PFXO2T", Decls: declMiss,
+			ExtraMethods: "\t// goverter:" + setting + "\n\tAPFXFirst(source PFXO1) PFXO1T\n",
+			ExpectFail:   true, FailNote: "a sibling method's " + setting + " leaked into the shared sub-method", Spec: &Spec{},
+		})
 	}
 	return out
 }
